@@ -9,12 +9,12 @@ package main
 
 import (
 	"context"
-	"encoding/json"
-	"strings"
 	"crypto/sha256"
 	"encoding/binary"
+	"encoding/json"
 	"fmt"
 	"sort"
+	"strings"
 	"time"
 
 	tmbytes "github.com/tendermint/tendermint/libs/bytes"
@@ -39,7 +39,7 @@ const (
 	// one unit of model time is 100 ms: block times, disabling times, promotion windows and the refund
 	// delay are not aligned to whole seconds
 	TimeUnit = 100 * time.Millisecond
-	ModName   = "vmod"      // the test module owning module contexts
+	ModName  = "vmod" // the test module owning module contexts
 )
 
 // Params in model terms
@@ -50,10 +50,44 @@ type MParams struct {
 	Tax         int64 `json:"tax"`   // over FScale
 	Slash       int64 `json:"slash"` // over FScale
 	RefundDelay int64 `json:"refundDelay"`
+	// Lax: the minimum collateral was raised by a parameter change earlier in this history
+	Lax bool `json:"lax"`
 }
 
 func DefaultMParams() MParams {
 	return MParams{MaxTimeout: 100, Multiple: 200, MinDeposit: 6000, Tax: 100, Slash: 1, RefundDelay: 20}
+}
+
+// sdkParams writes model parameters as the module's parameter set.  The refund delay is split into
+// an arbitration and a complaint period that differ, so that a lock built from one of them twice is
+// not the lock of both.
+func sdkParams(p MParams) types.Params {
+	arb := secs((p.RefundDelay + 2) / 3) // both periods must be positive: the delay is at least 2
+	comp := secs(p.RefundDelay - (p.RefundDelay+2)/3)
+	return types.NewParams(
+		p.MaxTimeout, p.Multiple, sdk.NewCoins(sdk.NewCoin(Denom, sdk.NewInt(p.MinDeposit))),
+		sdk.NewDecWithPrec(p.Tax, 3), sdk.NewDecWithPrec(p.Slash, 3), comp, arb, 4000, Denom,
+	)
+}
+
+// SetParams: governance replaces the module parameters (x/params), between transactions
+func (c *Chain) SetParams(p MParams) {
+	p.Lax = c.Params.Lax || p.MinDeposit > c.Params.MinDeposit || p.Multiple > c.Params.Multiple
+	c.K.SetParams(c.Ctx, sdkParams(p))
+	c.Params = p
+}
+
+// storedParams reads the parameters in force back from the store
+func (c *Chain) storedParams(ctx sdk.Context) MParams {
+	sp := c.K.GetParams(ctx)
+	return MParams{
+		MaxTimeout: sp.MaxRequestTimeout, Multiple: sp.MinDepositMultiple,
+		MinDeposit:  sp.MinDeposit.AmountOf(Denom).Int64(),
+		Tax:         sp.ServiceFeeTax.MulInt64(FScale).TruncateInt64(),
+		Slash:       sp.SlashFraction.MulInt64(FScale).TruncateInt64(),
+		RefundDelay: int64((sp.ArbitrationTimeLimit + sp.ComplaintRetrospect) / TimeUnit),
+		Lax:         c.Params.Lax,
+	}
 }
 
 type Callback struct {
@@ -148,13 +182,7 @@ func NewChain(p MParams, names []string, bal map[string]int64) *Chain {
 	c.Ctx = app.BaseApp.NewContext(false, tmproto.Header{Height: c.Height, Time: realTime(c.Now)})
 	c.Handler = service.NewHandler(c.K)
 
-	// the two periods differ, so that a refund lock built from one of them twice is not the lock of both
-	arb := secs(p.RefundDelay / 3)
-	comp := secs(p.RefundDelay - p.RefundDelay/3)
-	c.K.SetParams(c.Ctx, types.NewParams(
-		p.MaxTimeout, p.Multiple, sdk.NewCoins(sdk.NewCoin(Denom, sdk.NewInt(p.MinDeposit))),
-		sdk.NewDecWithPrec(p.Tax, 3), sdk.NewDecWithPrec(p.Slash, 3), comp, arb, 4000, Denom,
-	))
+	c.K.SetParams(c.Ctx, sdkParams(p))
 
 	total := int64(0)
 	for _, n := range names {
